@@ -83,6 +83,29 @@ func (ip *inproc) fresh() []delivered {
 // c01Check compares the copies of one publish a subscriber got with its model
 // subscriptions. got = QoS of each copy received.
 func c01Check(who string, subs map[string]byte, topic string, pubQ byte, got []delivered, uid uint64, desc *[]string) (sig string) {
+	return c01CheckImpl(who, subs, nil, topic, pubQ, got, uid, desc)
+}
+
+// implKey is the node of the subscription tree a filter lands on under the
+// empty-level encoding (known finding F-C06-1): filters with the same key are
+// one and the same subscription to the implementation.
+func implKey(f string) string {
+	ls := strings.Split(f, "/")
+	if len(ls) > 1 && ls[len(ls)-1] == "" {
+		ls = ls[:len(ls)-1]
+	}
+	for i := range ls {
+		if ls[i] == "" {
+			ls[i] = "+"
+		}
+	}
+	return strings.Join(ls, "/")
+}
+
+// c01CheckImpl: isubs, if not nil, is the implementation-level view of the
+// subscriber's subscriptions (tree key -> granted QoS, maintained along the
+// history) used by the classifier of the empty-level finding.
+func c01CheckImpl(who string, subs map[string]byte, isubs map[string]byte, topic string, pubQ byte, got []delivered, uid uint64, desc *[]string) (sig string) {
 	var want, wantImpl []byte
 	emptyInvolved := hasEmptyLevel(topic)
 	for f, g := range subs {
@@ -92,9 +115,18 @@ func c01Check(who string, subs map[string]byte, topic string, pubQ byte, got []d
 		if spec.Match(f, topic) {
 			want = append(want, minQ(pubQ, g))
 		}
-		if implEmptyLevelMatch(f, topic) {
+		if isubs == nil && implEmptyLevelMatch(f, topic) {
 			wantImpl = append(wantImpl, minQ(pubQ, g))
 		}
+	}
+	for k, g := range isubs {
+		// keys contain no empty levels any more; the name keeps its own encoding
+		if implEmptyLevelMatch(k, topic) {
+			wantImpl = append(wantImpl, minQ(pubQ, g))
+		}
+	}
+	if isubs != nil && len(isubs) != len(subs) {
+		emptyInvolved = true // aliased filters of this subscriber collapsed into one subscription
 	}
 	var gq []byte
 	for _, d := range got {
@@ -146,6 +178,18 @@ func subsString(m map[string]byte) string {
 	return strings.Join(ks, ",")
 }
 
+// isubsMap holds the implementation-level subscription view per client (see implKey).
+var isubsMap = map[*bclient]map[string]byte{}
+
+func isubsOf(c *bclient) map[string]byte {
+	m := isubsMap[c]
+	if m == nil {
+		m = map[string]byte{}
+		isubsMap[c] = m
+	}
+	return m
+}
+
 // c01History runs one sequential history in a bubble.
 func c01History(t *testing.T, idx int, seed uint64) {
 	r := spec.NewRand(seed)
@@ -156,6 +200,7 @@ func c01History(t *testing.T, idx int, seed uint64) {
 	var ops []string
 	params := map[string]interface{}{"buffer": bufSize, "clients": nclients, "steps": steps, "empty_levels": emptyOK}
 	bubble(t, "c01", params, func(cl *cleanup) {
+		isubsMap = map[*bclient]map[string]byte{}
 		w := newWorld(worldCfg{BufferSize: bufSize})
 		cl.add(w.shutdown)
 		var uids uidGen
@@ -207,6 +252,7 @@ func c01History(t *testing.T, idx int, seed uint64) {
 				for i, f := range fs {
 					if ack.Codes[i] <= 2 {
 						c.subs[f] = ack.Codes[i]
+						isubsOf(c)[implKey(f)] = ack.Codes[i]
 					}
 				}
 			case op < 8: // unsubscribe
@@ -231,6 +277,7 @@ func c01History(t *testing.T, idx int, seed uint64) {
 				}
 				for _, f := range fs {
 					delete(c.subs, f)
+					delete(isubsOf(c), implKey(f))
 				}
 			case op < 9: // in-process subscribe / unsubscribe
 				ip := inprocs[r.Intn(2)]
@@ -271,6 +318,7 @@ func c01History(t *testing.T, idx int, seed uint64) {
 				settle()
 				c.up = false
 				c.subs = map[string]byte{}
+				delete(isubsMap, c)
 			default: // publish
 				topic := genName(r, emptyOK)
 				q := byte(r.Intn(3))
@@ -324,7 +372,7 @@ func c01History(t *testing.T, idx int, seed uint64) {
 							sigs["c01:stray-delivery"] = true
 						}
 					}
-					if sig := c01Check(cj.name, cj.subs, topic, q, got, uid, &desc); sig != "" {
+					if sig := c01CheckImpl(cj.name, cj.subs, isubsOf(cj), topic, q, got, uid, &desc); sig != "" {
 						sigs[sig] = true
 					}
 					if len(cj.subs) > 0 {
